@@ -29,7 +29,8 @@ RULE = (
     "every source ID; repr() does not raise; the exposed view is the same when read twice, after "
     "inspect(), and after the message was merged into a running order whose stories are then edited "
     "(items deleted inside every story).  Non-trivial = >= 2 sources/carried elements, or a blank "
-    "target, or compact XML.")
+    "target, or compact XML."
+    ' Also: the FIRST read of StorySend.story on a fresh object is compared with the text, and reading accessors / inspect() must leave str(message) unchanged; IDs in CDATA sections; a str carrying a foreign encoding declaration.')
 ASSUMPTIONS = ['source IDs are non-blank (a blank *source* names nothing; only blank targets are in the stated domain)']
 MANDATORY = ['cdata', 'multi-source', 'repeated-source-id', 'blank-target', 'compact', 'pretty', 'inspect'] + \
     [f'class:{k}' for k in sorted(set(B.TAG_CLASS.values()) | set(B.EA_KINDS))]
